@@ -61,9 +61,34 @@ package pcache
 //@ lockchan ProviderCache.writeLock
 //@ protects ProviderCache.writeLock: write, seq
 
-//@ spec func pcOK(pc val) bool = pc != nil && pc.write != nil && pc.writeLock != nil && !closed(pc.writeLock)
+//@ spec func pcOK(pc val) bool = pc != nil && pc.write != nil && pc.writeLock != nil && !closed(pc.writeLock) && all(k, has(pc.write, k) ==> pc.write[k] != nil) && forall(j, 0, len(pc.sources), pc.sources[j] != nil)
 
+// Sources are interfaces implemented outside this package. ASSUMED: a successful
+// FetchAll returns no nil record (a nil element would be dereferenced).
+//@ iface ProviderSource.FetchAll
+//@   pure
+//@   ensures-assumed result1 == nil ==> forall(j, 0, len(result0), result0[j] != nil)
+//@ iface ProviderSource.Fetch
+//@   pure
+//@ iface ProviderSource.String
+//@   pure
+
+// Refresh (C07): takes the write lock (or waits for the refresh in progress and
+// returns), releases it on every path; pc.write / pc.seq are touched only under
+// the lock; the only maps ever written are pc.write and maps made by this call
+// (published snapshots are never modified); what is published is a fresh
+// readOnly. (C06): a refresh that consumed a sequence number has published a
+// snapshot before it returns - whatever the reason for returning.
 //@ func (*ProviderCache).Refresh
 //@   property C06 C07
 //@   requires pcOK(pc) && ctx != nil && !held(pc.writeLock)
-//@   requires forall(j, 0, len(pc.sources), pc.sources[j] != nil)
+//@   modifies mapof(pc.write), pc.seq, pc.read, objects(cacheInfo)
+//@   ensures-local count("atomic.store:read") >= 1 || pc.seq == old(pc.seq)
+//@   ensures-local count("atomic.store:read") <= 1
+//@   at call Store#1: assert isfresh(arg1)
+//@   at call Store#2: assert isfresh(arg1)
+//@   loop 1: invariant pcOK(pc) && held(pc.writeLock) && pc.seq == seq && seq != old(pc.seq) && rangeindex < len(pc.sources)
+//@   loop 2: invariant pcOK(pc) && held(pc.writeLock) && pc.seq == seq && seq != old(pc.seq) && rangeindex < len(fetchedInfos) && forall(j, 0, len(fetchedInfos), fetchedInfos[j] != nil)
+//@   loop 3: invariant pcOK(pc) && held(pc.writeLock) && pc.seq == seq && seq != old(pc.seq) && updates != nil && isfresh(updates)
+//@   loop 4: invariant pcOK(pc) && held(pc.writeLock) && pc.seq == seq && seq != old(pc.seq) && updates != nil && isfresh(updates)
+//@   loop 5: invariant pcOK(pc) && held(pc.writeLock) && pc.seq == seq && seq != old(pc.seq) && updates != nil && isfresh(updates) && m != nil && isfresh(m)
